@@ -18,6 +18,10 @@ type Clause struct {
 	SynName string // name of the synthetic function carrying it
 	Line    int
 	File    string
+	// parameter list / type parameter list of the synthetic function (used to re-emit the clause as executable Go
+	// when a refuted postcondition is replayed)
+	ParamText  string
+	TypeParams string
 }
 
 type Contract struct {
